@@ -16,8 +16,16 @@ is an input (the parser is an oracle); the correspondence stream of `harness/pro
 
 A code string "starts on the node's first line" when there is no newline between the node's start `p` and the
 start `o` of the string: `countNL (slice s p o) = 0`.  For `${…}`, `<% %>` and control lines this holds by
-construction; for tag attributes it is the guard of the `_partial` theorems (finding F7); filter lists of
-expressions carry their own offset since /repo 78adfd6 (finding F7b repaired) and need no guard.
+construction; for tag attributes it is the guard of the `_partial` theorems; filter lists of expressions carry
+their own offset (`escapesLinenoOffset`, /repo 78adfd6) and need no guard.
+
+OPEN (stated as comment blocks below, each with a `_partial` theorem and a kernel-evaluated `_counterexample`):
+* F7  – Python in tag attributes (signatures, `${}` in attributes, `<%call expr>`, `<%include args>`, `filter=`) that
+        do not start on the tag's first line is reported too early;
+* F8b – an unterminated filter list is reported at the bar instead of at `${`;
+* F8  – an unclosed tag other than `<%text>` is reported at the end of the source.
+Not a statement about this model (found by the oracle of `harness/props/C11.py` only): F13 – faults that only the
+compilation of the generated module finds escape as a bare `SyntaxError`.
 -/
 namespace MakoModel.C11
 open MakoModel.ErrPos MakoModel.Lexer MakoModel.Basic
@@ -308,8 +316,13 @@ example : (lex Cfg.fixed (lit "abc\n  <%include\n bogus='1'/>")).outcome = .ok
 
 /-! ## the construction paths -/
 
-/-- **the exception is a function of (decoded text, file name)**: the four construction paths, whatever URI and
-    magic-comment flag they pass on, end with the same exception fields -/
+/-- **the exception is a function of (decoded text, file name)**: the construction paths, whatever URI and
+    magic-comment flag they pass on, end with the same exception fields.  This statement is *definitional* (`rfl`):
+    the model has, like the code, the single entry `_compile`, and `compileError` ignores `uri` and the flag by
+    construction – it records that reading of the code, nothing more.  The content about paths is in
+    `path_independent_all_paths` / `path_independent_reload_of` (what `TemplateLookup._check` may do to the
+    exception on the reload path, tied to `mako/lookup.py` by `reload_converts_no_compile_error`) and in the
+    seven-path comparison of the harness oracle. -/
 theorem path_independent (cfg : Cfg) (ck : Checks) (p1 p2 : Path) (text : Str) (filename : Option Str) (uri1 uri2 : Str) :
     constructError cfg ck p1 text filename uri1 = constructError cfg ck p2 text filename uri2 := rfl
 
@@ -347,7 +360,8 @@ theorem path_independent_all_paths (cfg : Cfg) (ck : Checks) (p1 p2 : Path) (tex
   path_independent_reload_of _ _ reload_converts_no_compile_error.1 reload_converts_no_compile_error.2
     cfg ck p1 p2 text filename uri1 uri2
 
-/-- a `_check` that converts `Exception` hides the compile error of a reloaded template (the seeded change) -/
+/-- a `_check` whose handler is widened to `except Exception` hides the compile error of a reloaded template
+    behind `TemplateLookupException`, while a fresh lookup still shows it -/
 theorem path_independent_reload_counterexample :
     constructOutcomeWith ["Exception"] true Cfg.fixed ⟨fun _ => none, fun _ => none⟩ (.reload false) (lit "a\n${x") none []
       = some .converted
